@@ -1,5 +1,6 @@
 import IcyVerif.Lemmas.TermWrap
 import IcyVerif.Lemmas.TermOther
+import IcyVerif.Lemmas.TermSize
 /-! # C09 — cursor and fixed-grid geometry stay consistent under any stream
 Theorems for the ANSI emulation (all four music options, with or without BS as control character) on a terminal
 buffer with scrollback.  `run` feeds a whole stream through `step`, one character at a time, so quantifying over
@@ -88,6 +89,47 @@ theorem fixed_grid (e : Emu2) (he : e = .viewdata ∨ e = .mode7) (bytes : List 
   have hth : st.s.th = 24 := hs.2
   refine ⟨htw, hth, by rw [f2, htw], by rw [f1, hth], ?_⟩
   exact fixed_fv st ⟨hgo, ⟨f1, f2⟩⟩
+
+/-- "the visible screen" is a fixed window: a stream that does not request a text-area resize never changes the
+    terminal size — in particular not through a reset, form feed or clear screen while a scrollback exists (what
+    `Buffer::reset_terminal` must guarantee by rebuilding the terminal state from the terminal size).  Together with
+    `cursor_in_screen` this is the property with the *initial* width/height: column in `0..w-1`, row in the last
+    `h` rows of the buffer. -/
+theorem size_const (w h : Int) (cfg : Cfg) (o : Nat → Orc) (bytes : List Char) (st : St)
+    (hrun : run cfg o (initSt w h) bytes = .ok st) (hres : st.p.resized = false) : st.s.tw = w ∧ st.s.th = h :=
+  (run_size cfg o bytes (initSt w h) st hrun hres).2
+
+/-- the same for Avatar, PCBoard, Ctrl-A and Renegade -/
+theorem size_const_wrapped (e : Emu) (w h : Int) (o : Nat → Orc) (bytes : List Char) (st : WSt)
+    (hrun : wrun e o (initW w h) bytes = .ok st) (hres : st.inner.p.resized = false) :
+    st.inner.s.tw = w ∧ st.inner.s.th = h :=
+  (wrun_size e o bytes (initW w h) st hrun hres).2
+
+/-- ASCII, ATASCII, PETSCII, Viewdata and Mode 7 have no resize function: the size never changes -/
+theorem size_const_bytes (e : Emu2) (w h : Int) (bytes : List Char) (st : OSt)
+    (hrun : orun e (initO w h) bytes = .ok st) : st.s.tw = w ∧ st.s.th = h :=
+  orun_same e bytes (initO w h) st hrun
+
+/-- cursor clause with the initial size spelled out: after every character of every resize-free stream the column is
+    in `0..w-1` and the row among the last `h` rows of the buffer (`bh - h ..= bh - 1`) -/
+theorem cursor_in_initial_screen (w h : Int) (hw1 : 1 ≤ w) (hw2 : w ≤ 132) (hh1 : 1 ≤ h) (hh2 : h ≤ 60)
+    (cfg : Cfg) (o : Nat → Orc) (bytes : List Char) (st : St)
+    (hrun : run cfg o (initSt w h) bytes = .ok st) (hres : st.p.resized = false) (hbh : st.s.bh ≤ 2147483647) :
+    0 ≤ st.c.x ∧ st.c.x < w ∧ st.s.bh - h ≤ st.c.y ∧ st.c.y < st.s.bh := by
+  have hc := cursor_in_screen w h hw1 hw2 hh1 hh2 cfg o bytes st hrun hres
+  have hb := screen_not_below_buffer w h hw1 hw2 hh1 hh2 cfg o bytes st hrun hres
+  obtain ⟨hw, hh⟩ := size_const w h cfg o bytes st hrun hres
+  have hg := run_good cfg o bytes (initSt w h) (initSt_good w h hw1 hw2 hh1 hh2)
+  rw [hrun] at hg
+  have hfv := fv_eq st.s hg.1 hbh
+  rw [hw, hh] at hc
+  rw [hh] at hb hfv
+  omega
+
+/-- non-vacuity of `size_const`: scrollback, then soft reset, form feed and RIS — the size stays 7x4 -/
+example : (match run { musicOpt := 0, bsCtrl := true } (fun _ => { lineLen := 0, extOk := true }) (initSt 7 4)
+      "\n\n\n\n\n\n\n\x1b[!p\n\n\n\n\n\n\x0c\n\n\n\n\n\n\x1bc\n\n\n\n\n\n".toList with
+    | .ok st => (st.s.tw, st.s.th, st.s.bh, st.p.resized) | .error _ => (-1, -1, -1, true)) = (7, 4, 7, false) := by decide +kernel
 
 /-! non-vacuity: a stream that fills the scrollback, sets margins, tabs beyond the last stop and restores a
     stale saved position ends on the screen (the pinned tree left the cursor outside in each of these) -/
